@@ -63,6 +63,8 @@ def gen_net(rng):
     n = rng.choice([2, 3, 4, 5, 6, 8, 10, 14])
     cols = rng.choice([2, 3, 4, 5])
     ids = rng.sample(range(1, 40), n)
+    if rng.random() < 0.25:
+        ids[rng.randrange(n)] = 0          # 0 is a lanelet id like any other
     sign_ids = [100 + i for i in rng.sample(range(1, 30), rng.randint(0, 4))]
     light_ids = [200 + i for i in rng.sample(range(1, 30), rng.randint(0, 3))]
     lanelets = []
